@@ -437,6 +437,9 @@ func (g *Gen) NextBlock(w *World, bi int) (BlockSpec, bool) {
 				ev.JumpS = pick(g.R, []int64{1, 3600, 86400 * 365 * 10})
 			}
 			ev.Proposal = pick(g.R, []string{"", "", "process", "process", "prepare"})
+			if g.pct(8) {
+				ev.SlowMs = pick(g.R, []int64{5, 40, 400})
+			}
 			if inTail {
 				if g.down[n] {
 					ev.Kind = "restart"
